@@ -62,9 +62,12 @@ pub enum I1 {
     #[regex("x[a-c]", ignore(case))] XAbc,
     #[token("a.", ignore(case))] ADot,
     #[token("q")] Q,
+    // an all-ASCII literal whose case-insensitive language is not all-ASCII
+    #[token("ks", ignore(case))] Ks,
 }
 const K_FOLD: P = P::Alt(&[P::Class(&[(b'k', b'k'), (b'K', b'K')]), P::Lit(&[0xE2, 0x84, 0xAA])]);
 const ESZETT_FOLD: P = P::Alt(&[P::Lit(&[0xC3, 0x9F]), P::Lit(&[0xE1, 0xBA, 0x9E])]);
+const S_FOLD: P = P::Alt(&[P::Class(&[(b's', b's'), (b'S', b'S')]), P::Lit(&[0xC5, 0xBF])]);
 pub static I1_DEF: Def = Def {
     name: "I1", utf8: true, decide: no_callbacks, log_callbacks: false, default_err: plain_default,
     pats: &[
@@ -74,9 +77,10 @@ pub static I1_DEF: Def = Def {
         Pat { p: P::Cat(&[P::Class(&[(b'x', b'x'), (b'X', b'X')]), P::Class(&[(b'a', b'c'), (b'A', b'C')])]), prio: 4, act: Act::Tok(3) },
         Pat { p: P::Cat(&[P::Class(&[(b'a', b'a'), (b'A', b'A')]), P::Lit(b".")]), prio: 4, act: Act::Tok(4) },
         Pat { p: P::Lit(b"q"), prio: 2, act: Act::Tok(5) },
+        Pat { p: P::Cat(&[K_FOLD, S_FOLD]), prio: 4, act: Act::Tok(6) },
     ],
 };
-corpus_impl!(I1, str, I1_DEF, |t| match t { I1::Ab => 1, I1::KEszett => 2, I1::XAbc => 3, I1::ADot => 4, I1::Q => 5 }, |_e| 0, |_x| (0, true, 0, 0));
+corpus_impl!(I1, str, I1_DEF, |t| match t { I1::Ab => 1, I1::KEszett => 2, I1::XAbc => 3, I1::ADot => 4, I1::Q => 5, I1::Ks => 6 }, |_e| 0, |_x| (0, true, 0, 0));
 pub fn i1_skip_byte(b: u8) -> bool { b == b'z' || b == b'Z' }
 
 // ---- I2: ignore(case) on byte-string literals is ASCII-only
